@@ -198,6 +198,13 @@ def rule_input(ctx: Ctx) -> None:
                         vs[k.value] = parse_checker(vv)
                 ctx.ob("C17.INPUT-TABLE", CC, v, f"{vn}[{k.value}] overrides exactly the 'disp' entry", [kk.value for kk in v.keys if isinstance(kk, ast.Constant)] == ["disp"], detail="the variants are merged into the shared input schema with .update(): a variant with another key set leaves entries of a previous check behind")
         variants[vn] = vs
+        # the integer form is a *pair*: json_checker's [int, int] alone means "non-empty list of ints"
+        for k, v in zip(node.keys, node.values):
+            if isinstance(k, ast.Constant) and isinstance(v, ast.Dict):
+                for kk, vv in zip(v.keys, v.values):
+                    if isinstance(kk, ast.Constant) and kk.value == "disp" and any(isinstance(x, ast.List) for x in ast.walk(vv)):
+                        haslen = any(isinstance(x, ast.Compare) and isinstance(x.left, ast.Call) and (dotted(x.left.func) or "") == "len" and len(x.ops) == 1 and isinstance(x.ops[0], ast.Eq) and canon(x.comparators[0]) == "2" for x in ast.walk(vv))
+                        ctx.ob("C17.INPUT-TABLE", CC, vv, f"{vn}[{k.value}]['disp'] = {canon(vv)[:90]} accepts a list of exactly two integers", haslen, expected="And([int, int], lambda input: len(input) == 2)", detail="a json_checker list rule [int, int] accepts every non-empty list of ints: [-60, 0, 5] passes the check and add_disparity silently drops everything after the second element")
     types = {"list": list, "str": str, "int": int, "float": float, "dict": dict}
     reps_l = {"list": [-60, 0], "str": "grid.tif", "None": None, "other": 5}
     accepted = set()
@@ -307,12 +314,13 @@ SPEC = PropSpec(
 )
 
 MUTANTS = [
+    {"id": "disparity-list-of-any-length", "file": CC, "old": '        "disp": And([int, int], lambda input: len(input) == 2),\n', "new": '        "disp": [int, int],\n'},
     {"id": "min-ge-max-refused", "file": CC, "old": '(disparity.sel(band_disp="min").data > disparity.sel(band_disp="max").data).any()', "new": '(disparity.sel(band_disp="min").data >= disparity.sel(band_disp="max").data).any()'},
     {"id": "drop-shape-loop", "file": CC, "old": '    for data_var in filter(lambda i: i != "im", dataset):\n        check_shape(dataset=dataset, ref="im", test=str(data_var))\n', "new": ""},
     {"id": "shape-loop-fixed-list", "file": CC, "old": '    for data_var in filter(lambda i: i != "im", dataset):\n        check_shape(dataset=dataset, ref="im", test=str(data_var))\n', "new": '    for data_var in ("msk", "classif", "segm"):\n        if data_var in dataset:\n            check_shape(dataset=dataset, ref="im", test=str(data_var))\n'},
     {"id": "attrs-lose-crs", "file": CC, "old": '{"no_data_img", "valid_pixels", "no_data_mask", "crs", "transform"}', "new": '{"no_data_img", "valid_pixels", "no_data_mask", "transform"}'},
     {"id": "right-dataset-unchecked", "file": CC, "old": "    check_dataset(left)\n    check_dataset(right)\n", "new": "    check_dataset(left)\n"},
-    {"id": "accept-list-list", "file": CC, "old": 'input_configuration_schema_integer_disparity: Mapping = {\n    "left": {\n        "disp": [int, int],\n    },\n    "right": {\n        "disp": (lambda input: input is None),', "new": 'input_configuration_schema_integer_disparity: Mapping = {\n    "left": {\n        "disp": [int, int],\n    },\n    "right": {\n        "disp": Or([int, int], lambda input: input is None),'},
+    {"id": "accept-list-list", "file": CC, "old": 'input_configuration_schema_integer_disparity: Mapping = {\n    "left": {\n        "disp": And([int, int], lambda input: len(input) == 2),\n    },\n    "right": {\n        "disp": (lambda input: input is None),', "new": 'input_configuration_schema_integer_disparity: Mapping = {\n    "left": {\n        "disp": [int, int],\n    },\n    "right": {\n        "disp": Or([int, int], lambda input: input is None),'},
     {"id": "nodata-or-int-float", "file": CC, "old": '        "nodata": Or(int, lambda input: np.isnan(input)),\n        "mask": And(Or(str, lambda input: input is None), rasterio_can_open),\n        "classif": And(Or(str, lambda x: x is None), rasterio_can_open),\n        "segm": And(Or(str, lambda x: x is None), rasterio_can_open),\n    },\n    "right"', "new": '        "nodata": Or(int, float),\n        "mask": And(Or(str, lambda input: input is None), rasterio_can_open),\n        "classif": And(Or(str, lambda x: x is None), rasterio_can_open),\n        "segm": And(Or(str, lambda x: x is None), rasterio_can_open),\n    },\n    "right"'},
     {"id": "check_datasets-after-run", "file": INIT, "old": "    # Check datasets: shape, format and content\n    check_datasets(img_left, img_right)\n\n    # Run the Pandora pipeline\n    left, right = run(pandora_machine, img_left, img_right, cfg)\n", "new": "    # Run the Pandora pipeline\n    left, right = run(pandora_machine, img_left, img_right, cfg)\n\n    # Check datasets: shape, format and content\n    check_datasets(img_left, img_right)\n"},
     {"id": "allnan-any", "file": CC, "old": 'if np.isnan(dataset["im"].data).all():', "new": 'if np.isnan(dataset["im"].data).any():'},
